@@ -97,7 +97,7 @@ void HttpServer::serve(Socket client)
 				}
 
 				String mime = _mimetypes.get(file.extension(), "text/plain");
-				response.setHeader("Date", Date::now().toString(Date::HTTP));
+				response.setHeader("Date", Date::now().toUTCString(Date::HTTP));
 				response.setHeader("Content-Type", mime);
 				
 				if (!response.hasHeader("Cache-Control"))
@@ -168,7 +168,7 @@ void HttpServer::serveFile(HttpRequest& request, HttpResponse& response)
 					return;
 				}
 			}
-			response.setHeader("Last-Modified", file.lastModified().toString(Date::HTTP));
+			response.setHeader("Last-Modified", file.lastModified().toUTCString(Date::HTTP));
 			response.put(file);
 		}
 		else
